@@ -582,17 +582,30 @@ structure Compiled (es : List Entry) (lx : Lex) (d : Nat) : Prop where
   built : ∃ t ents, buildTable es = some (t, ents) ∧ Holds lx.buf lx.tblOff t ∧
     checkTrie lx.trie ents = true
 
-theorem lexLookup_spec (gd : Bool) {es : List Entry} {lx : Lex} {d : Nat} (hc : Compiled es lx d)
-    (text : List Nat) (off : Nat) (hn : NoNul text) :
+/-- the traversal of the array `a` agrees, on this text and offset, with the prefix scan of the
+`(key, offset)` list which the model of the index builder derives from the rows `es` (what the
+proved checker establishes: for NUL-free texts with either variant of the loop, for every byte
+string with the guarded loop) -/
+def TravOk (g : Bool) (es : List Entry) (a : Arr) (text : List Nat) (off : Nat) : Prop :=
+  ∀ t ents, buildTable es = some (t, ents) → checkTrie a ents = true →
+    commonPrefix g a text off = some (specFlat ents off (text.drop off))
+
+theorem TravOk.of_noNul (g : Bool) (es : List Entry) (a : Arr) (text : List Nat) (off : Nat)
+    (hn : NoNul text) : TravOk g es a text off :=
+  fun _ ents _ h => checkTrie_sound g a ents h text off hn
+
+theorem lexLookup_spec' (gd : Bool) {es : List Entry} {lx : Lex} {d : Nat} (hc : Compiled es lx d)
+    (text : List Nat) (off : Nat) (ht : TravOk gd es lx.trie text off) :
     lexLookup gd lx text off = some (specLex d es off (text.drop off)) := by
   obtain ⟨t, ents, hb, hh, hchk⟩ := hc.built
+  have htr := ht t ents hb hchk
   unfold buildTable at hb
   cases hg : buildIndex es with
   | none => simp [hg] at hb
   | some g =>
     simp only [hg] at hb
     have hid : lx.lexId < MAX_DICTIONARIES := by rw [hc.id]; exact hc.dic
-    simp only [lexLookup, hid, not_true_eq_false, if_false, checkTrie_sound gd _ _ hchk text off hn]
+    simp only [lexLookup, hid, not_true_eq_false, if_false, htr]
     unfold specFlat specLex
     apply expand_filterMap
     intro l _
@@ -625,6 +638,11 @@ theorem lexLookup_spec (gd : Bool) {es : List Entry} {lx : Lex} {d : Nat} (hc : 
       · rw [hc.id]; exact stamp_eq d (by have := hc.dic; omega) ids hlt
       · rw [← hids']; simp [List.map_map, Function.comp_def]
 
+theorem lexLookup_spec (gd : Bool) {es : List Entry} {lx : Lex} {d : Nat} (hc : Compiled es lx d)
+    (text : List Nat) (off : Nat) (hn : NoNul text) :
+    lexLookup gd lx text off = some (specLex d es off (text.drop off)) :=
+  lexLookup_spec' gd hc text off (TravOk.of_noNul gd es lx.trie text off hn)
+
 /-! ## H. the lexicon set -/
 
 theorem lookupIn_append (g : Bool) (A B : List Lex) (text : List Nat) (off : Nat) :
@@ -651,22 +669,30 @@ def specSetFrom (d : Nat) : List (List Entry) → Nat → List Nat → List (Nat
   | [], _, _ => []
   | es :: rest, off, t => specSetFrom (d+1) rest off t ++ specLex d es off t
 
-theorem setFrom_spec (g : Bool) (text : List Nat) (off : Nat) (hn : NoNul text) :
+theorem setFrom_spec' (g : Bool) (text : List Nat) (off : Nat) :
     ∀ (ws : List (List Entry × Lex)) (d0 : Nat),
     (∀ (j : Nat) (h : j < ws.length), Compiled ws[j].1 ws[j].2 (d0 + j)) →
+    (∀ x ∈ ws, TravOk g x.1 x.2.trie text off) →
     lookupIn g (ws.map (·.2)).reverse text off =
       some (specSetFrom d0 (ws.map (·.1)) off (text.drop off)) := by
   intro ws
   induction ws with
-  | nil => intro d0 _; rfl
+  | nil => intro d0 _ _; rfl
   | cons w ws ih =>
-    intro d0 h
+    intro d0 h ht
     have h0 : Compiled w.1 w.2 d0 := h 0 (by simp)
     have hr := ih (d0 + 1) (fun j hj => by
       have := h (j + 1) (by simp; omega)
-      simpa [Nat.add_assoc, Nat.add_comm 1 j] using this)
+      simpa [Nat.add_assoc, Nat.add_comm 1 j] using this) (fun x hx => ht x (by simp [hx]))
     simp only [List.map_cons, List.reverse_cons, lookupIn_append, hr, lookupIn,
-      lexLookup_spec g h0 text off hn, specSetFrom, List.append_nil]
+      lexLookup_spec' g h0 text off (ht w (by simp)), specSetFrom, List.append_nil]
+
+theorem setFrom_spec (g : Bool) (text : List Nat) (off : Nat) (hn : NoNul text)
+    (ws : List (List Entry × Lex)) (d0 : Nat)
+    (h : ∀ (j : Nat) (h : j < ws.length), Compiled ws[j].1 ws[j].2 (d0 + j)) :
+    lookupIn g (ws.map (·.2)).reverse text off =
+      some (specSetFrom d0 (ws.map (·.1)) off (text.drop off)) :=
+  setFrom_spec' g text off ws d0 h (fun x _ => TravOk.of_noNul g x.1 x.2.trie text off hn)
 
 theorem mem_specLex (d : Nat) (es : List Entry) (off : Nat) (t : List Nat) (w e : Nat) :
     (w, e) ∈ specLex d es off t ↔
